@@ -760,9 +760,12 @@ func engDeadLetter(variants []dlParams) vsched.Instance {
 				mon2 = append(mon2, Render(c.Message()))
 			}, "mon", actor.WithID("2"))
 			k.E.Subscribe(m2)
-		case 4:
-			// a subscriber on another node, on an engine that has no remote
+		case 4, 5:
+			// a subscriber on another node (5: two of them, on two nodes), on an engine that has no remote
 			k.E.Subscribe(actor.NewPID("10.0.0.7:4000", "far-sub/1"))
+			if p.Subs == 5 {
+				k.E.Subscribe(actor.NewPID("10.0.0.6:4000", "far-sub/2"))
+			}
 			vsched.Quiesce()
 		case 2, 3:
 			gone = k.E.SpawnFunc(func(c *actor.Context) {}, "gone", actor.WithID("1"))
@@ -804,6 +807,10 @@ func engDeadLetter(variants []dlParams) vsched.Instance {
 						m = fmt.Sprintf("s%d", t*100+i)
 					case 2:
 						m = &dlPayload{t*100 + i}
+					case 3:
+						// the undeliverable message is itself a DeadLetterEvent (a monitor forwarding what it saw to an
+						// auditor that is gone): reported like any other message
+						m = actor.DeadLetterEvent{Target: actor.NewPID(addr, "elsewhere/1"), Message: t*100 + i}
 					}
 					vsched.Touch("sends")
 					msgs = append(msgs, m)
@@ -883,7 +890,7 @@ func engDeadLetter(variants []dlParams) vsched.Instance {
 			for _, g := range got {
 				// forwarding an event to the foreign subscriber is itself an undeliverable send and is
 				// legitimately reported once; those reports are not about our sends
-				if p.Subs == 4 && strings.HasPrefix(g, "EngineRemoteMissing(10.0.0.7:4000/far-sub/1,") {
+				if (p.Subs == 4 || p.Subs == 5) && (strings.HasPrefix(g, "EngineRemoteMissing(10.0.0.7:4000/far-sub/1,") || strings.HasPrefix(g, "EngineRemoteMissing(10.0.0.6:4000/far-sub/2,")) {
 					continue
 				}
 				mine = append(mine, g)
